@@ -73,6 +73,7 @@ extra = {
  'C08': " Also proved: the ON clause of an association join is built after the joined model's query modifiers (soft-delete filter) on every path; the raw-condition grouping harness of C02 is run for C08 as well (bounded).",
  'C09': " Also proved: Delete and the soft-delete UPDATE derive key conditions first from the deleted value, then from the Model value, each only when key values were found; Update adds a key condition only for a record whose key is set.",
  'C11': " Also proved: Statement.clone copies every preload into a map of its own.",
+ 'C12': " Also checked (thin structural sweeps): the fixed value of a reference (polymorphic owner type) is stored into the equality conditions of Delete/Replace; a many-to-many Replace identifies the kept targets by the fields the join table references.",
  'C13': " Also proved: batches run without a wrapping transaction only when a single batch suffices; each hook flag of a schema is looked up by the hook's own name.",
  'C14': " Also proved: a statement evicted after driver.ErrBadConn is handed to a closer (all four Exec/Query wrappers).",
  'C15': " Also proved: OrderBy.MergeClause accumulates columns in call order in the chain's own list (functional contract); First/Last/Take ask for one row in ascending/descending/no key order and raise not-found; Count restores ORDER BY and SELECT on a chain in progress; Scan records the cursor's error when the first Next is false.",
